@@ -1803,6 +1803,11 @@ func (c *RemoteClient) runRequests(ctx context.Context, interrupt <-chan interfa
 			// when its response gets here. Register those first or the response finds no match.
 			c.addPendingRequests()
 
+			// A request that timed out is waiting in the remove channel. Remove those first or the
+			// response goes to a caller that already returned instead of a newer request for the
+			// same item.
+			c.removePendingRequests()
+
 			err := c.handleRequestResponse(ctx, response.message)
 			if response.response != nil {
 				response.response <- err
@@ -1821,6 +1826,23 @@ func (c *RemoteClient) addPendingRequests() {
 		select {
 		case request := <-c.addRequestsChannel:
 			c.requests = append(c.requests, request)
+		default:
+			return
+		}
+	}
+}
+
+// removePendingRequests removes the requests that are waiting in the remove channel.
+func (c *RemoteClient) removePendingRequests() {
+	for {
+		select {
+		case request := <-c.removeRequestsChannel:
+			for i, r := range c.requests {
+				if r == request {
+					c.requests = append(c.requests[:i], c.requests[i+1:]...)
+					break
+				}
+			}
 		default:
 			return
 		}
